@@ -43,19 +43,19 @@ func mvNil() MV              { return MV{K: "z"} }
 func (m MV) Coq() string {
 	switch m.K {
 	case "n":
-		return "VNum " + m.N.String()
+		return "PNum " + byteList(m.N.Bytes())
 	case "b":
-		return "VBool " + vf.Bool(m.T)
+		return "PBool " + vf.Bool(m.T)
 	case "s":
-		return "VBytes " + byteList(m.B)
+		return "PBytes " + byteList(m.B)
 	case "l":
 		xs := make([]string, len(m.L))
 		for i, x := range m.L {
 			xs[i] = "(" + x.Coq() + ")"
 		}
-		return "VList [" + strings.Join(xs, ";") + "]"
+		return "PList [" + strings.Join(xs, ";") + "]"
 	}
-	return "VNil"
+	return "PNil"
 }
 
 func mvEq(a, b MV) bool {
@@ -82,16 +82,26 @@ func mvEq(a, b MV) bool {
 	return true
 }
 
+// byteList prints a byte string in the packed form of coq/C14/Pack.v:
+// (length, [words]) with 7 bytes per primitive integer, big endian.
 func byteList(b []byte) string {
 	var sb strings.Builder
-	sb.WriteByte('[')
-	for i, c := range b {
+	sb.WriteString(fmt.Sprintf("(%d,[", len(b)))
+	for i := 0; i < len(b); i += 7 {
+		j := i + 7
+		if j > len(b) {
+			j = len(b)
+		}
+		var w uint64
+		for _, c := range b[i:j] {
+			w = w<<8 | uint64(c)
+		}
 		if i > 0 {
 			sb.WriteByte(';')
 		}
-		sb.WriteString(fmt.Sprint(c))
+		sb.WriteString(fmt.Sprint(w))
 	}
-	sb.WriteByte(']')
+	sb.WriteString("])")
 	return sb.String()
 }
 
